@@ -20,6 +20,27 @@ import q, enc, c01
 from enc import *
 import wl
 
+
+def restart_level(ctx, crate, crs, tag):
+    """A restart after a lazily added clause conflicts with the partial solution undoes the *whole* run (to its starting level):
+    every clause reported in that round - not only the first - may be violated by earlier decisions."""
+    import c14
+    c14.isolation(_Rename(ctx, "soft-isolation", "restart"), crate, crs, tag)
+
+
+class _Rename:
+    def __init__(self, ctx, a, b):
+        self._c, self._a, self._b = ctx, a, b
+
+    def __getattr__(self, n):
+        return getattr(self._c, n)
+
+    def ob(self, rule, *a, **k):
+        self._c.ob(rule.replace(self._a, self._b), *a, **k)
+
+    def floor(self, rule, *a, **k):
+        self._c.floor(rule.replace(self._a, self._b), *a, **k)
+
 UOC = ("resolvo::solver::UnsolvableOrCancelled", "resolvo::UnsolvableOrCancelled")
 PERR = "resolvo::solver::PropagationError"
 
@@ -45,6 +66,7 @@ def run(ctx):
         ctx.guard("unit-propagation" + tag, unit_propagation, ctx, crate, crs, tag)
         ctx.guard("trail" + tag, trail, ctx, crate, crs, tag)
         ctx.guard("watch-list" + tag, wl.run, ctx, crate, crs, tag)
+        ctx.guard("restart" + tag, restart_level, ctx, crate, crs, tag)
 
 
 def conflict_signal(ctx, crate, crs, tag):
